@@ -62,7 +62,7 @@ def _mapping_raw(float_weights):
         'refs': st.lists(st.fixed_dictionaries({'t': st.integers(0, 40), 'pick': st.integers(0, 40)}), max_size=2),
         'merge1': st.lists(st.booleans(), min_size=14, max_size=14),
         'merge2': st.lists(st.integers(0, 2), min_size=16, max_size=16),
-        'macros': st.lists(st.tuples(st.sampled_from(['m1', 'm2', 'long_macro']), st.sampled_from(MACRO_VALUES)).map(list),
+        'macros': st.lists(st.tuples(st.sampled_from(['m1', 'm2', 'long_macro', 'm1-x', 'aa.bb', 'm1']), st.sampled_from(MACRO_VALUES)).map(list),
                            max_size=2, unique_by=lambda t: t[0]),
     })
 
